@@ -382,7 +382,14 @@ def suites(rng, tier):
         {"suite": "txval", "name": "receivership-bracket-shapes", "lines": TG.val_exhaustive(rng, "liq3", 4 if tier != "thorough" else 5),
          "distribution": {"alphabet": TG.ALPHABETS["liq3"], "note": "the 'strictly inside an active receivership' clause: transaction shapes with repeated / trailing-byte start and end instructions; a receivership that is not closed by its own end instruction lets any signer withdraw / repay afterwards"}},
         receivership_power_suite(rng, tier),
+        {"suite": "auth", "name": "payout-without-registered-destination", "lines": _c19().unregistered_destination_cells(), "impl_only": True,
+         "distribution": {"note": "the one instruction that moves value out of an account without its authority's signature (permissionless emissions payout) on an account that never registered a destination wallet: must be refused, also for the ATA of the default pubkey"}},
     ]
+
+
+def _c19():
+    from props import c19
+    return c19
 
 
 def receivership_power_suite(rng, tier):
@@ -518,6 +525,8 @@ def nontrivial(suite, case, impl):
     if suite == "hops":
         tr = HO.Trace(case, impl)
         return tr.ok and any((op[0] == 4 and res == "OK") or op[0] == 32 for op, res, *_ in HO.walk(tr))
+    if suite == "auth" and " k=emis0 " in case:
+        return True
     if suite in ("txval", "txsim"):
         return C10.nontrivial(suite, case, impl)
     if suite == "oracle":
@@ -570,6 +579,8 @@ def oracle(suite, case, impl):
         return oracle_substitution(case, impl)
     if suite == "txval":
         return C10.oracle(suite, case, impl)
+    if suite == "auth" and " k=emis0 " in case:
+        return _c19().oracle_payout(case, impl)
     if suite == "txsim":
         # whole transactions through the real handlers: the two consequences of the signer rule that only show at
         # transaction level (the rest of C10's transaction oracle - shapes, health, premium - is judged under C10)
